@@ -138,6 +138,28 @@ func expandPredicateHelpersKeep(c *chk.Ctx, conds []ir.Cond, depth int, keep fun
 				}
 			}
 		}
+		// the ok flag of a private helper with several results: v, ok := h(...)
+		if e, isE := cd.V.(*ssa.Extract); isE && depth < 3 && repl == nil {
+			if call, isCall := e.Tuple.(*ssa.Call); isCall {
+				if h := call.Call.StaticCallee(); h != nil && c.P.InRepo[h] && !ir.Exported(h) && e.Index < h.Signature.Results().Len() && h.Signature.Results().At(e.Index).Type().String() == "bool" {
+					constRet := true
+					var alts [][]ir.Cond
+					for _, r := range ir.Returns(h) {
+						k, isK := ir.ReturnResult(r, e.Index).(*ssa.Const)
+						if !isK || k.Value == nil {
+							constRet = false
+							break
+						}
+						if (k.Value.String() == "true") == cd.Truth {
+							alts = append(alts, expandPredicateHelpersKeep(c, ir.CondsAt(r.Block()), depth+1, keep)...)
+						}
+					}
+					if constRet && len(alts) > 0 {
+						repl = alts
+					}
+				}
+			}
+		}
 		if call, ok := cd.V.(*ssa.Call); ok && depth < 3 && repl == nil {
 			if h := call.Call.StaticCallee(); h != nil && c.P.InRepo[h] && !ir.Exported(h) && h.Signature.Results().Len() == 1 && h.Signature.Results().At(0).Type().String() == "bool" {
 				constRet := true
